@@ -13,9 +13,16 @@ from concurrent.futures import ThreadPoolExecutor
 
 ROOT = os.path.dirname(os.path.abspath(__file__))
 SPEC = os.path.join(ROOT, "spec")
-HARNESS = os.path.join(ROOT, "harness")
+# The registered commands always check /repo.  For experiments (tools/run_seeded.py) VERIF_REPO may name another
+# checkout of the repository: the harness is then built in a scratch copy against that checkout, and scratch files
+# and evidence go to work/alt/ so that nothing of the real run is touched.
+REPO = os.environ.get("VERIF_REPO", "/repo")
+ALT = REPO != "/repo"
+WORK = os.path.join(ROOT, "work", "alt") if ALT else os.path.join(ROOT, "work")
+HARNESS_SRC = os.path.join(ROOT, "harness")
+HARNESS = os.path.join(WORK, "harness") if ALT else HARNESS_SRC
 BIN = os.path.join(HARNESS, "target", "debug", "ommx-conform")
-WORK = os.path.join(ROOT, "work")
+EVIDENCE_DIR = os.path.join(WORK, "evidence") if ALT else os.path.join(ROOT, "evidence")
 sys.path.insert(0, ROOT)
 from plan import PLAN, OWN  # noqa: E402
 
@@ -42,7 +49,18 @@ def run(cmd, timeout, env=None, cwd=None, stdout=None):
 # ----------------------------------------------------------------------------------------- build
 def build_harness():
     t = time.time()
-    lock_src = "/repo/Cargo.lock"
+    if ALT:
+        os.makedirs(HARNESS, exist_ok=True)
+        for sub in ("src", ".cargo"):
+            shutil.rmtree(os.path.join(HARNESS, sub), ignore_errors=True)
+            shutil.copytree(os.path.join(HARNESS_SRC, sub), os.path.join(HARNESS, sub))
+        toml = open(os.path.join(HARNESS_SRC, "Cargo.toml")).read().replace('path = "/repo/rust/ommx"', f'path = "{REPO}/rust/ommx"')
+        open(os.path.join(HARNESS, "Cargo.toml"), "w").write(toml)
+        shutil.copy(os.path.join(REPO, "Cargo.lock"), os.path.join(HARNESS, "Cargo.lock"))
+        # the drivers include tools/arith_defined.json relative to the crate
+        os.makedirs(os.path.join(WORK, "tools"), exist_ok=True)
+        shutil.copy(os.path.join(ROOT, "tools", "arith_defined.json"), os.path.join(WORK, "tools", "arith_defined.json"))
+    lock_src = os.path.join(REPO, "Cargo.lock")
     lock_dst = os.path.join(HARNESS, "Cargo.lock")
     if not os.path.exists(lock_dst):
         shutil.copy(lock_src, lock_dst)
@@ -65,7 +83,7 @@ def write_schema():
     sys.path.insert(0, os.path.join(ROOT, "tools"))
     import schema_tables
     os.makedirs(WORK, exist_ok=True)
-    json.dump(schema_tables.table_P("/repo"), open(SCHEMA_PATH, "w"))
+    json.dump(schema_tables.table_P(REPO), open(SCHEMA_PATH, "w"))
 
 
 def tlc_env(extra_java=""):
@@ -381,8 +399,8 @@ def check(prop, tier, seed):
         "wall_s": round(time.time() - t0, 1), "violations": len(violations),
         "build_s": round(build_s, 1),
     }
-    os.makedirs(os.path.join(ROOT, "evidence"), exist_ok=True)
-    json.dump(evidence, open(os.path.join(ROOT, "evidence", f"{prop}.json"), "w"), indent=1)
+    os.makedirs(EVIDENCE_DIR, exist_ok=True)
+    json.dump(evidence, open(os.path.join(EVIDENCE_DIR, f"{prop}.json"), "w"), indent=1)
     log(f"{prop} [{tier}] events={n_events} rejected={len(bad)} violations={len(violations)} "
         f"known={sum(v[1] for v in known_hits.values())} wall={evidence['wall_s']}s")
     if not violations:
